@@ -1,6 +1,7 @@
 package wl
 
 import (
+	"math"
 	"context"
 	"fmt"
 	"sort"
@@ -344,9 +345,9 @@ func (m *MeasureModel) GenBatch(tp *simcore.Tape, o BatchOpts, batchNo int) []*M
 			switch {
 			case o.SmallField && f.Type == databasev1.FieldType_FIELD_TYPE_INT:
 				v := int64(tp.Range(-100, 100))
-				switch tp.Weighted(30, 1, 6, 6) {
+				switch tp.Weighted(30, 2, 6, 6) {
 				case 1:
-					v = []int64{1 << 40, -(1 << 40), 1<<62 - 1, -(1 << 62)}[tp.Choose(4)]
+					v = []int64{1 << 40, -(1 << 40), 1<<62 - 1, -(1 << 62), math.MaxInt64, math.MinInt64}[tp.Choose(6)]
 				case 2: // zeros: partial sums that are exactly zero
 					v = 0
 				case 3: // cancels the previous row's value
